@@ -222,6 +222,10 @@ pub fn c07(ctx: &Ctx) -> PropResult {
             cases.push(Case::new(Kind::Lex, src).tag("newline-after-token").aux(kind.clone()));
         }
     }
+    // digit runs around the largest double
+    for src in crate::props6::huge_literal_family() {
+        cases.push(Case::new(Kind::Lex, src).tag("huge-literal"));
+    }
     // identifiers that begin with a keyword, where the scanner looks ahead (after a newline, after `}`)
     let kws: Vec<String> = crate::props4::KEYWORDS_DOC.iter().map(|k| k.to_string()).collect();
     for src in crate::props6::keyword_prefixed_identifier_family(&kws) {
@@ -277,7 +281,7 @@ pub fn c07(ctx: &Ctx) -> PropResult {
     let stats = run_cases(&ctx.driver, cases, &lex_oracle, &no_known, ctx.threads);
     PropResult {
         stats,
-        rule: format!("every string of length <= {max_len} over a {}-symbol lexical alphabet (exhaustive), random strings to 24 units, mutated repository programs; non-trivial = at least two tokens before end-of-input, or a lexical error; 24 characters that tools put into files or that belong to other scripts (U+FEFF, no-break / zero-width spaces, line / paragraph separators, NEL, VT, FF, other digits and letters, U+10FFFF) at offset 0, after and between every symbol of the alphabet and in 21 program contexts; names that begin with a keyword after every statement-ending token; for every token kind a newline / comment + newline / CR LF / blank lines after it: a terminator token exactly for the kinds the property names", LEX_ALPHABET.len()),
+        rule: format!("every string of length <= {max_len} over a {}-symbol lexical alphabet (exhaustive), random strings to 24 units, mutated repository programs; non-trivial = at least two tokens before end-of-input, or a lexical error; 24 characters that tools put into files or that belong to other scripts (U+FEFF, no-break / zero-width spaces, line / paragraph separators, NEL, VT, FF, other digits and letters, U+10FFFF) at offset 0, after and between every symbol of the alphabet and in 21 program contexts; names that begin with a keyword after every statement-ending token; for every token kind a newline / comment + newline / CR LF / blank lines after it: a terminator token exactly for the kinds the property names; digit runs around the largest double (the digits of f64::MAX, of the rounding boundary to infinity, 307 .. 1000 digits)", LEX_ALPHABET.len()),
         exhaustive: false,
         notes: vec![],
     }
